@@ -1,6 +1,7 @@
 P = dict(
     bin="egv_c19", trace="Trace_C19", level="model_checking",
     mc=[dict(module="MC_C19", quick_cfg="MC_C19.cfg", thorough_cfg="MC_C19_thorough.cfg")],
+    drift_checked=True,
     required_events=["tri", "pair", "poly"],
     level_text="TLC steps the transcribed fill scanline iterator of Triangle::points() (one scanline per action) for every "
                "vertex multiset of a grid and the transcribed polyline::Points machine (one next() per action) for every "
